@@ -148,6 +148,12 @@ impl<State, B> Call<State, B> {
         })
     }
 
+    #[cfg(feature = "verif-hooks")]
+    pub(crate) fn verif_writer(&self) -> (bool, bool, bool) {
+        let w = &self.state.writer;
+        (w.has_body(), w.is_chunked(), w.is_ended())
+    }
+
     pub(crate) fn amended(&self) -> &AmendedRequest<B> {
         &self.request
     }
@@ -376,11 +382,29 @@ fn try_write_prelude<B>(
     let at_start = w.len();
 
     loop {
+        #[cfg(feature = "verif-hooks")]
+        crate::verif_hooks::tick("write_prelude");
+
         if try_write_prelude_part(request, state, w) {
             continue;
         }
 
         let written = w.len() - at_start;
+
+        #[cfg(feature = "verif-hooks")]
+        crate::verif_hooks::emit(crate::verif_hooks::Event::Phase {
+            name: match state.phase {
+                Phase::SendLine => "SendLine",
+                Phase::SendHeaders(_) => "SendHeaders",
+                Phase::SendBody => "SendBody",
+                Phase::RecvResponse => "RecvResponse",
+                Phase::RecvBody => "RecvBody",
+            },
+            index: match state.phase {
+                Phase::SendHeaders(i) => i,
+                _ => 0,
+            },
+        });
 
         if written > 0 || state.phase.is_body() {
             return Ok(());
@@ -479,6 +503,8 @@ impl<B> Call<RecvResponse, B> {
                         // Insert a synthetic connection: close, since the connection is
                         // not valid after using a partial request.
                         debug!("Partial redirection response, insert fake connection: close");
+                        #[cfg(feature = "verif-hooks")]
+                        crate::verif_hooks::emit(crate::verif_hooks::Event::PartialRedirect);
                         r.headers_mut()
                             .insert("connection", HeaderValue::from_static("close"));
 
